@@ -9,12 +9,20 @@
 #include "../engine/dsched.hpp"
 namespace hooks {
 	inline thread_local uint32_t last_ticket = 0;
-	template<typename P, typename V> inline auto fetch_add(P p, V v, int mo) { dsched::point(); auto r = __atomic_fetch_add(p, v, mo); last_ticket = (uint32_t)r; return r; }
+	// release clocks of the lock words (vclock.hpp), keyed by address; cleared for every case
+	struct RelSlot { const void *key; vclock::Rel rel; };
+	inline RelSlot g_rels[64];
+	VCLOCK_NOTSAN inline void rels_clear() { for(auto &r : g_rels) { r.key = nullptr; r.rel = vclock::Rel(); } }
+	VCLOCK_NOTSAN inline vclock::Rel &rel_of(const volatile void *p) { for(auto &r : g_rels) { if(r.key == (const void *)p) return r.rel; if(!r.key) { r.key = (const void *)p; return r.rel; } } return g_rels[63].rel; }
+	template<typename P, typename V> inline auto fetch_add(P p, V v, int mo) { dsched::point(); rel_of(p).on_rmw((std::memory_order)mo); auto r = __atomic_fetch_add(p, v, mo); last_ticket = (uint32_t)r; return r; }
+	template<typename P> inline auto load_n(P p, int mo) { dsched::point(); auto r = __atomic_load_n(p, mo); rel_of(p).on_load((std::memory_order)mo); return r; }
+	template<typename P, typename V> inline void store_n(P p, V v, int mo) { dsched::point(); rel_of(p).on_store((std::memory_order)mo); __atomic_store_n(p, v, mo); }
+	template<typename P, typename V> inline auto exchange_n(P p, V v, int mo) { dsched::point(); rel_of(p).on_rmw((std::memory_order)mo); return __atomic_exchange_n(p, v, mo); }
 }
 #define __atomic_fetch_add(p, v, mo) hooks::fetch_add(p, v, mo)
-#define __atomic_load_n(p, mo) (dsched::point(), __atomic_load_n(p, mo))
-#define __atomic_store_n(p, v, mo) (dsched::point(), __atomic_store_n(p, v, mo))
-#define __atomic_exchange_n(p, v, mo) (dsched::point(), __atomic_exchange_n(p, v, mo))
+#define __atomic_load_n(p, mo) hooks::load_n(p, mo)
+#define __atomic_store_n(p, v, mo) hooks::store_n(p, v, mo)
+#define __atomic_exchange_n(p, v, mo) hooks::exchange_n(p, v, mo)
 #define __builtin_ia32_pause() dsched::spin_yield()
 #include <frg/spinlock.hpp>
 #undef __atomic_fetch_add
@@ -26,10 +34,12 @@ namespace hooks {
 
 const char *verif_harness = "spin_conc";
 using namespace verif;
+void verif_case_reset() { vclock::reset(); hooks::rels_clear(); }
 
 namespace {
 struct Shared {
 	long data[4] = {0, 0, 0, 0};       // plain memory written inside the critical section (TSan's probe)
+	vclock::Stamp last_section;         // position of the previous holder when it left the section (vclock.hpp)
 	int inside = 0;                     // harness bookkeeping, only touched inside ignore regions
 	std::vector<std::pair<uint32_t, int>> entries;   // (ticket, thread) in the order of entering the section
 	std::string error;
@@ -60,9 +70,11 @@ void run_lock(Ctx &c, const std::vector<uint32_t> *explicit_choices) {
 			  if(sh->inside++ && sh->error.empty()) sh->error = "two threads are inside the critical section at once";
 			  sh->entries.push_back({hooks::last_ticket, (int)k}); }
 			bool locked = lk->is_locked();
+			if(!vclock::hb(sh->last_section)) { dsched::Ignore ig; if(sh->error.empty()) sh->error = "the previous critical section does not happen before this one: the acquiring loads read from no release sequence (C++20 [intro.races]/5) headed by the previous holder's unlock"; }
 			for(int j = 0; j < 4; j++) sh->data[j] += 1;       // plain accesses: a race here means the lock does not order them
 			dsched::point();
 			for(int j = 0; j < 4; j++) sh->data[j] += 1;
+			sh->last_section = vclock::now();
 			{ dsched::Ignore ig; sh->inside--; (void)locked; }     // is_locked() is not part of C12 (and reads false across the ticket wrap-around): not asserted
 			lk->unlock();
 		}
